@@ -180,6 +180,7 @@ Definition wf_case (c : c01case) : bool :=
   | CMut _ _ _ ms => forallb wf_tree ms
   | CDel _ _ _ _ _ _ => true
   | CRoomMut _ _ _ _ _ => true
+  | CFailedWrite _ => true
   | CE2E (CMut _ _ _ ms) => forallb wf_tree ms
   | CE2E (CDel _ _ _ _ _ _) => true
   | CE2E (CRoomMut _ _ _ _ _) => true
@@ -201,7 +202,7 @@ Theorem model_accepts_only_entitled c :
   wf_case c = true ->
   match c with CMatrix _ _ => True | _ => spec_C01 c (run_C01 c) = true end.
 Proof.
-  destruct c as [evs probes|defs me mnow ms|defs me now ns es upd|defs me rid date news|inner]; intros Hwf; try exact I.
+  destruct c as [evs probes|defs me mnow ms|defs me now ns es upd|defs me rid date news|finner|inner]; intros Hwf; try exact I.
   - simpl in *. destruct (validate_all me mnow (build_rooms defs) ms) eqn:Hv; simpl; try reflexivity.
     apply mutation_entitled; assumption.
   - simpl. destruct (validate_deletion me now (build_rooms defs) ns es upd) eqn:Hv; simpl; try reflexivity.
@@ -215,7 +216,8 @@ Proof.
     + simpl in Hrun. destruct (find (fun p => N.eqb (fst p) rid) defs); discriminate.
     + destruct (Z.eqb v 0) eqn:Hv; [|reflexivity]. apply Z.eqb_eq in Hv. subst v. apply HR. reflexivity.
     + simpl in Hrun. destruct (find (fun p => N.eqb (fst p) rid) defs); discriminate.
-  - destruct inner as [evs probes|defs me mnow ms|defs me now ns es upd|defs me rid date news|inner']; simpl in *; try discriminate.
+  - reflexivity.
+  - destruct inner as [evs probes|defs me mnow ms|defs me now ns es upd|defs me rid date news|finner|inner']; simpl in *; try discriminate.
     + destruct (validate_all me mnow (build_rooms defs) ms) eqn:Hv; simpl; try reflexivity.
       apply mutation_entitled; assumption.
     + destruct (validate_deletion me now (build_rooms defs) ns es upd) eqn:Hv; simpl; try reflexivity.
